@@ -35,15 +35,17 @@ IO_FAULTS = ["dump_open:EACCES", "dump_open:ENOSPC", "dump_write:ENOSPC", "maked
              "input_open:EIO", "input_open:ENOENT", "input_open:EACCES"]
 
 
-def base_candidates(name):
-    """Acceptable '<input base name>': text before the first dot (what the anchors describe)
-    and, for multi-dot names where the property is ambiguous, also the name minus its last
-    extension.  For ordinary single-dot names both coincide."""
+def base_candidates(name, lenient=False):
+    """'<input base name>': the text before the FIRST dot of the file's base name - the naming rule the
+    property's anchors state ("File naming (split on the first dot)").  Only directory mode, where the code
+    skips multi-dot names altogether and the property says nothing about them, also tolerates the name minus
+    its last extension (lenient=True)."""
     b = os.path.basename(name)
     c = [b.split(".")[0]]
-    alt = os.path.splitext(b)[0]
-    if alt not in c:
-        c.append(alt)
+    if lenient:
+        alt = os.path.splitext(b)[0]
+        if alt not in c:
+            c.append(alt)
     return c
 
 
@@ -95,7 +97,10 @@ class FilesWorld:
         self.modes = sorted(dialect_by_name)
         seams.install_file_seams()
         self.runs_done = 0
-        DDLParser("create table warm (a int);").run()
+        try:
+            import simple_ddl_parser.parsetab  # noqa: F401  (data only; the worker itself never builds a parser)
+        except BaseException:  # noqa
+            sys.modules.pop("simple_ddl_parser.parsetab", None)
 
     # ------------------------------------------------------------------ generation
     def _text(self, rw, enc, clean_only=False):
@@ -117,6 +122,23 @@ class FilesWorld:
             return text, it
         return "create table t (a int);\n", {"flags": {}, "run": {}, "src": "fallback"}
 
+    def api_ref(self, text, settings, kw):
+        """What the in-memory API returns for this text from the CURRENT process state: evaluated in a forked child, so
+        the entry point under test then starts from the very same state.  C19 is an equivalence between entry points;
+        comparing with a pristine process instead would also report defects of repeated use (C14 / C15) here."""
+        import isolate
+
+        def fn():
+            try:
+                p = self.DDLParser(text, **(settings or {}))
+            except BaseException as e:  # noqa
+                return core.outcome_of_exception(e)
+            try:
+                return ["ok", core.canon(p.run(**kw))]
+            except BaseException as e:  # noqa
+                return core.outcome_of_exception(e)
+        return isolate.run_isolated(fn)
+
     def _kw(self, ro, it):
         return workload.pick_run_kwargs(ro, self.modes, it.get("run"))
 
@@ -135,7 +157,13 @@ class FilesWorld:
                 d = ro.choice(["in", "in", "in2"])
                 name = ro.choice(NAMES_SINGLE * 3 + NAMES_ODD)
                 text, it = self._text(rw, enc, clean_only=(d == "in2"))
-                ops.append({"op": "put", "dir": d, "name": name, "text": text, "enc": enc})
+                put = {"op": "put", "dir": d, "name": name, "text": text, "enc": enc}
+                nl = ro.random()
+                if nl < 0.2:
+                    # CRLF / CR line endings on disk: text-mode reading translates them, so the decoded content -
+                    # and the reference - is the "\n" text
+                    put["nl"] = "\r\n" if nl < 0.14 else "\r"
+                ops.append(put)
                 inputs.append((d, name, enc, it))
                 continue
             d, name, enc, it = ro.choice(inputs)
@@ -303,11 +331,13 @@ class FilesWorld:
                     p = os.path.join(root, op["dir"], op["name"])
                     try:
                         with open(p, "w", encoding=op["enc"], newline="") as f:
-                            f.write(op["text"])
+                            f.write(op["text"].replace("\n", op["nl"]) if op.get("nl") else op["text"])
                     except (UnicodeError, OSError):
                         continue
                     files[(op["dir"], op["name"])] = (op["text"], op["enc"])
-                    kinds.append("put:%s:%s" % (_name_class(op["name"]), op["enc"]))
+                    if op.get("nl"):
+                        stats["inputs_crlf_or_cr"] += 1
+                    kinds.append("put:%s:%s%s" % (_name_class(op["name"]), op["enc"], ":crlf" if op.get("nl") else ""))
                     continue
                 if k == "env":
                     self._apply_env(root, op, stats)
@@ -421,6 +451,8 @@ class FilesWorld:
                 if op.get("dump_path") is not None:
                     kw["dump_path"] = self._abs(root, op["dump_path"])
                 tgt_abs = self._abs_real(root, op.get("dump_path") or "schemas")
+            if dec_exc is None:
+                expect_result = self.api_ref(decoded, op.get("settings") or {}, op["kw"])
             seams.HOOKS.io = plan
             try:
                 r = self.parse_from_file(path, **args, **kw)
@@ -435,7 +467,6 @@ class FilesWorld:
                     viol.append({"oracle": "decode_error_swallowed", "observed": "returned normally",
                                  "expected": dec_exc})
                 return viol, "api_file:decode_error"
-            expect_result = self.ref(decoded, op.get("settings") or {}, op["kw"])
             bases = base_candidates(op["name"])
             kind = "api_file:%s:%s:%s" % (_name_class(op["name"]), enc, "dump" if dumping else "nodump")
         elif k == "api_dump":
@@ -445,6 +476,7 @@ class FilesWorld:
                 kw["dump_path"] = self._abs(root, op["dump_path"])
             tgt_abs = self._abs_real(root, op.get("dump_path") or "schemas")
             dumping = True
+            expect_result = self.api_ref(op["text"], op.get("settings") or {}, op["kw"])
             seams.HOOKS.io = plan
             try:
                 p = self.DDLParser(op["text"], **(op.get("settings") or {}))
@@ -454,7 +486,6 @@ class FilesWorld:
                 outcome = ["exc", e]
             finally:
                 seams.HOOKS.io = None
-            expect_result = self.ref(op["text"], op.get("settings") or {}, op["kw"])
             bases = base_candidates(op["file_path"])
             kind = "api_dump:%s" % _name_class(os.path.basename(op["file_path"]))
         elif is_cli:
@@ -478,6 +509,21 @@ class FilesWorld:
             dumping = not op.get("no_dump")
             verbose = bool(op.get("v") or op.get("no_dump"))
             tgt_abs = self._abs_real(root, op.get("target") or "schemas")
+            # "as the API called once per file": the API results, from the state the command starts in
+            run_kw = {"output_mode": op["mode"]} if op.get("mode") else {}
+            cli_pre = {}
+            if k == "cli_file":
+                with open(os.path.join(root, op["dir"], op["name"]), "r", encoding="utf-8") as f:
+                    cli_pre["file"] = self.api_ref(f.read(), {}, run_kw)
+            elif k == "cli_dir":
+                for n in sorted(n for (d, n) in files if d == op["dir"]):
+                    try:
+                        with open(os.path.join(root, op["dir"], n), "r", encoding="utf-8") as f:
+                            text = f.read()
+                    except UnicodeError:
+                        cli_pre[n] = None
+                        continue
+                    cli_pre[n] = self.api_ref(text, {}, run_kw)
             if k == "cli_file" and op.get("sub"):
                 outcome, stdout = self._cli_subprocess(argv)
                 stats["cli_subprocess"] += 1
@@ -502,23 +548,18 @@ class FilesWorld:
         # ---------------- expectations per entry point
         run_kw = {"output_mode": op["mode"]} if (is_cli and op.get("mode")) else {}
         if k == "cli_file":
-            with open(os.path.join(root, op["dir"], op["name"]), "r", encoding="utf-8") as f:
-                text = f.read()
-            expect_result = self.ref(text, {}, run_kw)
+            expect_result = cli_pre["file"]
             bases = base_candidates(op["name"])
         allowed = set()
         if k == "cli_dir":
             members = sorted(n for (d, n) in files if d == op["dir"])
             must, optional, clean = [], [], True
             for n in members:
-                try:
-                    with open(os.path.join(root, op["dir"], n), "r", encoding="utf-8") as f:
-                        text = f.read()
-                except UnicodeError:
+                out = cli_pre.get(n)
+                if out is None:
                     # the CLI has no encoding option: an undecodable member makes it raise at that file
                     clean = False
                     continue
-                out = self.ref(text, {}, run_kw)
                 if must_process(n):
                     must.append((n, out))
                     if out[0] != "ok":
@@ -535,7 +576,7 @@ class FilesWorld:
                     per_file_must.setdefault(base_candidates(n)[0], []).append(_unc(out[1]))
             for n, out in optional + must:
                 if out[0] == "ok":
-                    for b in base_candidates(n):
+                    for b in base_candidates(n, lenient=True):
                         per_file_opt.setdefault(b, []).append(_unc(out[1]))
             return self._judge_dir(root, op, outcome, stdout, ch, tgt_abs, per_file_must, per_file_opt, clean,
                                    io_fault_fired, dumping, stats, before), kind + (":clean" if clean else ":unclean")
